@@ -359,35 +359,45 @@ func predC07(e *vlib.Env, in *input, a answer) {
 			mask[o+2], mask[o+3] = true, true
 		}
 	}
+	// reserved bits that the re-serialisation of the meta line / an info field clears (known
+	// finding C07/reserved-bits-cleared): position -> mask of the reserved bits in that byte
+	rsv := map[int]byte{d.pathOff + 1: 0xFC}
+	for _, s := range segs {
+		o := d.pathOff + scion.MetaLen + path.InfoLen*s
+		rsv[o], rsv[o+1] = 0xFC, 0xFF
+	}
 	for i := range in.raw {
-		if in.raw[i] != a.raw[i] && !mask[i] {
-			region := "payload/extension"
-			key := "other-bytes"
-			hdrEnd := d.pathOff + d.p.Len()
-			switch {
-			case i < d.pathOff:
-				region = "common/address header"
-			case i < d.pathOff+4:
-				region = "path meta header (not the pointers)"
-				if i == d.pathOff+1 {
-					key = "reserved-bits-cleared"
-				}
-			case i < d.pathOff+4+8*d.p.NumINF:
-				region = "info field"
-				o := (i - d.pathOff - 4) % 8
-				if o < 2 {
-					key = "reserved-bits-cleared"
-				}
-			case i < hdrEnd:
-				region = "hop field"
-			}
-			bad(key, fmt.Sprintf("byte %d (%s) changed from %02x to %02x", i, region, in.raw[i], a.raw[i]))
-			return
+		if in.raw[i] == a.raw[i] || mask[i] {
+			continue
+		}
+		if m, ok := rsv[i]; ok && (in.raw[i]^a.raw[i])&^m == 0 && a.raw[i]&m == 0 {
+			bad("reserved-bits-cleared", fmt.Sprintf("byte %d: reserved bits of the path meta header / current info field cleared (%02x -> %02x)", i, in.raw[i], a.raw[i]))
+			continue
+		}
+		region := "payload/extension"
+		hdrEnd := d.pathOff + d.p.Len()
+		switch {
+		case i < d.pathOff:
+			region = "common/address header"
+		case i < d.pathOff+4:
+			region = "path meta header (not the pointers)"
+		case i < d.pathOff+4+8*d.p.NumINF:
+			region = "info field"
+		case i < hdrEnd:
+			region = "hop field"
+		}
+		bad("other-bytes", fmt.Sprintf("byte %d (%s) changed from %02x to %02x", i, region, in.raw[i], a.raw[i]))
+		return
+	}
+	// the pointers themselves: forwarding moves along the path, never backwards or off it
+	if d.wellFormed() {
+		out := a.raw[d.pathOff]
+		newHF, newINF := int(out&0x3F), int(out>>6)
+		adv := newHF - d.currHF()
+		if adv < 0 || adv > 2 || newHF >= d.numHops() || newINF != d.segOf(newHF) {
+			bad("pointers", fmt.Sprintf("pointers moved from (%d,%d) to (%d,%d)", d.currINF(), d.currHF(), newINF, newHF))
 		}
 	}
-	// the pointer byte must have moved forward along the path (or stayed, when handing over to a
-	// sibling without cross-over)
-	_ = bytes.Equal
 }
 
 // ---------------------------------------------------------------------------------------------
